@@ -87,3 +87,85 @@ def index_graph(g):
             rows[u] |= 1 << pos[s]
             edges.append((u, pos[s], "c"))
     return nodes, pos, rows, edges
+
+
+# ---------------------------------------------------------------------------------------------------------------
+# histories on ONE Graph object (C18/C19 'hist' family): model = (alive node indices, typed edge list, entry index)
+OPS = ("add_edge", "add_catch_edge", "remove_node", "set_entry")
+
+
+def model_rows(n, alive, edges):
+    rows = [0] * n
+    for e in edges:
+        rows[e[0]] |= 1 << e[1]
+    return rows
+
+
+def model_rooted(n, alive, edges, entry):
+    from gen import graphs as G
+    want = 0
+    for v in alive:
+        want |= 1 << v
+    return G.reach_from(n, model_rows(n, alive, edges), entry) == want
+
+
+def candidate_ops(n, alive, edges, entry):
+    """Every single mutation the Graph API offers on the model state, kept only if the result is still rooted."""
+    have = {(e[0], e[1], e[2] if len(e) > 2 else "n") for e in edges}
+    out = []
+    for u in alive:
+        for v in alive:
+            if (u, v, "n") not in have:
+                out.append(("add_edge", u, v))
+            if (u, v, "c") not in have:
+                out.append(("add_catch_edge", u, v))
+    for x in alive:
+        if x != entry and len(alive) > 1:
+            out.append(("remove_node", x, x))
+        if x != entry:
+            out.append(("set_entry", x, x))
+    res = []
+    for op in out:
+        a2, e2, en2 = apply_model(alive, edges, entry, op)
+        if model_rooted(n, a2, e2, en2):
+            res.append(op)
+    return res
+
+
+def apply_model(alive, edges, entry, op):
+    kind, u, v = op
+    edges = [(e[0], e[1], e[2] if len(e) > 2 else "n") for e in edges]
+    if kind == "add_edge":
+        return list(alive), edges + [(u, v, "n")], entry
+    if kind == "add_catch_edge":
+        return list(alive), edges + [(u, v, "c")], entry
+    if kind == "remove_node":
+        return [x for x in alive if x != u], [e for e in edges if u not in (e[0], e[1])], entry
+    if kind == "set_entry":
+        return list(alive), edges, u
+    raise ValueError(op)
+
+
+def apply_real(g, nodes, op):
+    kind, u, v = op
+    if kind == "add_edge":
+        g.add_edge(nodes[u], nodes[v])
+    elif kind == "add_catch_edge":
+        g.add_catch_edge(nodes[u], nodes[v])
+        nodes[v].in_catch = True
+    elif kind == "remove_node":
+        g.remove_node(nodes[u])
+    elif kind == "set_entry":
+        g.entry = nodes[u]
+    else:
+        raise ValueError(op)
+
+
+def sub_view(n, nodes, alive, edges, entry):
+    """Relabels the alive nodes 0..m-1: (node objects, successor rows, typed edges, entry index)."""
+    pos = {x: i for i, x in enumerate(alive)}
+    sub_edges = [(pos[e[0]], pos[e[1]], e[2] if len(e) > 2 else "n") for e in edges]
+    rows = [0] * len(alive)
+    for (a, b, _k) in sub_edges:
+        rows[a] |= 1 << b
+    return [nodes[x] for x in alive], rows, sub_edges, pos[entry]
